@@ -631,13 +631,15 @@ def cumulative(ctx):
 NL_USE_A = [("use mod_a, only: x", {"x": ("mod_a", "x")}), ("use mod_a", {"x": ("mod_a", "x"), "tol": ("mod_a", "tol")}),
             ("use mod_a, only: ax => x", {"ax": ("mod_a", "x")}), ("USE MOD_A, ONLY: AX => X, tol", {"ax": ("mod_a", "x"), "tol": ("mod_a", "tol")}),
             ("use mod_c", {"ctol": ("mod_a", "tol")})]
-NL_USE_B = [("use mod_b, only: bx => x", {"bx": ("mod_b", "x")}), ("use mod_b, bx => x", {"bx": ("mod_b", "x"), "y": ("mod_b", "y")}), ("use mod_b, only: y", {"y": ("mod_b", "y")})]
-NL_NAMES = ["x", "ax", "bx", "tol", "ctol", "loc", "X", "Bx", "y", "nowhere"]
+NL_USE_B = [("use mod_b, only: bx => x", {"bx": ("mod_b", "x")}), ("use mod_b, bx => x", {"bx": ("mod_b", "x"), "y": ("mod_b", "y"), "tag": ("mod_b", "tag"), "label": ("mod_b", "label")}), ("use mod_b, only: y", {"y": ("mod_b", "y")}),
+            # an entity declared with its character length after the name is exported under its NAME
+            ("use mod_b, only: tag, lbl => label", {"tag": ("mod_b", "tag"), "lbl": ("mod_b", "label")})]
+NL_NAMES = ["x", "ax", "bx", "tol", "ctol", "loc", "X", "Bx", "y", "nowhere", "tag", "lbl"]
 
 
 def _nl_files(ua, ub, n1, n2):
     return {"a.f90": ["module mod_a", "integer :: x, tol", "end module mod_a"],
-            "b.f90": ["module mod_b", "real :: x, y", "end module mod_b"],
+            "b.f90": ["module mod_b", "real :: x, y", "character :: tag*(8), label(2)*(4)", "end module mod_b"],
             "c.f90": ["module mod_c", "use mod_a, only: ctol => tol", "end module mod_c"],
             "p.f90": ["program main", ua, ub, "integer :: loc", "namelist /settings/ " + n1 + ", " + n2, "end program main"]}
 
@@ -686,7 +688,7 @@ def namelist_members(ctx):
         a = CV.choice(E, "use_a", NL_USE_A)
         b = CV.choice(E, "use_b", NL_USE_B)
         n1 = CV.choice(E, "n1", NL_NAMES)
-        n2 = CV.choice(E, "n2", NL_NAMES)
+        n2 = CV.choice(E, "n2", ["loc", "bx", "tag", "y"])   # the second member: a smaller table (cost)
         E.assume(choice.apply(lambda p_, q_: p_.lower() != q_.lower(), n1, n2))
         h.state = (a, b, n1, n2)
         want = [choice.apply(nl_rule, a[1], b[1], n1), choice.apply(nl_rule, a[1], b[1], n2)]
